@@ -32,6 +32,7 @@ import (
 	"gvharness/hx"
 
 	"github.com/arnodel/golua/lib"
+	"github.com/arnodel/golua/lib/golib"
 	rt "github.com/arnodel/golua/runtime"
 )
 
@@ -40,12 +41,13 @@ const canary = "canary-content\n"
 func restore(dir string) {
 	ents, _ := os.ReadDir(dir)
 	for _, e := range ents {
-		if e.Name() != "canary" {
+		if e.Name() != "canary" && e.Name() != "gvmod.lua" {
 			os.RemoveAll(filepath.Join(dir, e.Name()))
 		}
 	}
 	os.WriteFile(filepath.Join(dir, "canary"), []byte(canary), 0o644)
 	os.Chmod(filepath.Join(dir, "canary"), 0o644)
+	os.WriteFile(filepath.Join(dir, "gvmod.lua"), []byte("return 42\n"), 0o644)
 }
 
 func digest(dir string) string {
@@ -89,6 +91,15 @@ var seeds = []string{
 	`runtime.context().stopnow`,
 	`package.searchers`,
 	`debug.traceback`,
+	// functions no Lua value of a fresh runtime leads to: the metamethods of Go values (the
+	// harness creates one through the Go API, global __gv) and the loader package.searchers[2] returns
+	`getmetatable(__gv)`,
+	`(select(1, package.searchers[2]("gvmod")))`,
+}
+
+// setup runs on every fresh runtime after the libraries are loaded.
+func setup(r *rt.Runtime) {
+	r.SetEnv(r.GlobalEnv(), "__gv", golib.NewGoValue(r, map[string]int{"a": 1}))
 }
 
 func goFuncInfo(g *rt.GoFunction) (goName, luaName string, flags uint64) {
@@ -123,6 +134,7 @@ func enum(out *bufio.Writer) {
 	r := rt.New(os.Stdout)
 	cleanup := lib.LoadAll(r)
 	defer cleanup()
+	setup(r)
 	t := r.MainThread()
 	type item struct {
 		v    rt.Value
@@ -257,6 +269,7 @@ func main() {
 			if !ok {
 				continue
 			}
+			lc.Setup = setup
 			res := hx.RunLuaCase(lc)
 			// processes started by the case (io.popen) run asynchronously: wait for them so that
 			// what they do to the sentinel is attributed to this case
